@@ -1,0 +1,50 @@
+//go:build verif && !wasm
+// +build verif,!wasm
+
+package shell
+
+import (
+	"context"
+	"io"
+	"strings"
+
+	"github.com/chzyer/readline"
+
+	"github.com/arr-ai/arrai/rel"
+)
+
+// VerifSession drives a shell instance line by line without a terminal and exposes the state the
+// ShellSession specification talks about. Only built with the verif tag.
+type VerifSession struct {
+	sh *shellInstance
+	l  *readline.Instance
+}
+
+// NewVerifSession starts a session with the standard scope and no debug frames.
+func NewVerifSession() (*VerifSession, error) {
+	l, err := readline.NewEx(&readline.Config{
+		Stdin:  io.NopCloser(strings.NewReader("")),
+		Stdout: io.Discard,
+		Stderr: io.Discard,
+	})
+	if err != nil {
+		return nil, err
+	}
+	return &VerifSession{sh: newShellInstance(newLineCollector(), nil), l: l}, nil
+}
+
+// Line feeds one input line through the shell's own parseCmd.
+func (v *VerifSession) Line(ctx context.Context, line string) error {
+	return v.sh.parseCmd(ctx, line, v.l)
+}
+
+// Pending returns the lines collected so far and the depth of the open-delimiter stack.
+func (v *VerifSession) Pending() (lines []string, depth int) {
+	return append([]string(nil), v.sh.collector.lines...), len(v.sh.collector.stack)
+}
+
+// Scope returns the session's current scope.
+func (v *VerifSession) Scope() rel.Scope { return v.sh.scope }
+
+// Close releases the readline instance.
+func (v *VerifSession) Close() { v.l.Close() }
